@@ -153,7 +153,7 @@ struct Stats {
   unsigned ops = 0, removals = 0, inserts_after_removal = 0, copies = 0, doc_moves = 0, handle_ops = 0, proxy_ops = 0, deser_ops = 0;
   unsigned shared_string_removed = 0, cross_ledger_moves = 0, alias_excluded = 0, max_handle_survival = 0;
   bool removed_once = false;
-  unsigned container_sets = 0;
+  unsigned container_sets = 0, no_such_key_ops = 0, assign_ops = 0;
 };
 
 // ------------------------------------------------------------------------------ helpers
